@@ -96,7 +96,16 @@ def oracle(ops, outs):
     return None
 
 
+def translate(ctx):
+    """regenerate Gen/AllocOps.lean from alloc_tracker.rs (atomic operation shape of each op)"""
+    p = subprocess.run([sys.executable, os.path.join(VERIF, "tools/translate_c13.py")], capture_output=True, text=True)
+    ctx.notes["translate_c13"] = (p.stdout + p.stderr).strip()[-300:]
+    if p.returncode != 0:
+        ctx.failed_obligations.append("translator translate_c13.py failed: " + (p.stdout + p.stderr).strip()[-300:])
+
+
 def run(ctx):
+    translate(ctx)
     ok = ctx.lean_build(MODULES)
     if ok:
         ctx.audit(MODULES, ctx.update_lock)
@@ -140,13 +149,151 @@ def run(ctx):
         if d is not None:
             ctx.failed_obligations.append(
                 f"correspondence AllocTracker vs Jxl.Alloc.step differs at op {ops[d]!r}: impl {io[d]!r} model {mo[d]!r}")
+    concurrent(ctx)
+    set_limits(ctx, ok)
     end_to_end(ctx, ok)
     ctx.assumptions += [
         "usize = 64 bit; histories in which expand_limit wraps the limit past usize::MAX are excluded (NoWrap)",
-        "atomic read-modify-write operations are linearizable, so concurrent histories are sequences",
+        "atomic read-modify-write operations are linearizable, so concurrent histories are sequences: each "
+        "tracker operation is a single RMW (C13_ops_are_single_rmw over Gen/AllocOps.lean, regenerated from "
+        "alloc_tracker.rs); a multi-threaded stress run looks for a schedule in which the bytes of live handles "
+        "exceed the limit or an over-limit request succeeds",
+        "JxlDecoder::set_limits (image integration) is modelled by Jxl.Alloc.setLimits; tied by running the same "
+        "set_limits sequences on the real decoder (hook H8) and on the model",
         "the decoder's own use of the tracker (every handle dropped on every error path) is exercised "
         "by the end-to-end limit sweep below, not proved",
     ]
+
+
+def concurrent(ctx):
+    """search for a schedule that breaks the single-RMW reading of the tracker"""
+    rng = ctx.rng
+    lines = [f"stress {t} {30000 if ctx.quick else 400000} {l} {rng.randrange(1 << 62)}"
+             for t in (2, 4, 8, 16) for l in (1 << 20, 3000, 97)]
+    outs = run_lines_robust([ctx.harness_bin("c13")], lines, per_line_timeout=300)
+    for line, o in zip(lines, outs):
+        ctx.case(("stress", line), nontrivial=True)
+        m = re.match(r"stress max_live=(\d+) limit=(\d+) refused_ok=(\d+) left=(\d+)", o or "")
+        rep = {"op": line, "answer": o, "how": "echo '<op>' | harness/target/debug/c13 (schedule dependent: repeat)"}
+        if not m:
+            ctx.violation("concurrent-stress-crashed", (o or "crash")[:200], rep, key="c13:stress-crash")
+            continue
+        mx, lim, wrong, left = (int(x) for x in m.groups())
+        ctx.count("stress-runs")
+        if mx > lim:
+            ctx.violation("concurrent-callers-exceeded-limit", f"live bytes {mx} > limit {lim}", rep, key="c13:stress-exceeded")
+        elif wrong:
+            ctx.violation("over-limit-request-succeeded-under-contention", f"{wrong} times", rep, key="c13:stress-over-limit-ok")
+        elif left != lim:
+            ctx.violation("budget-not-restored-after-concurrent-use", f"left {left} of {lim}", rep, key="c13:stress-leak")
+
+
+def set_limits(ctx, ok):
+    """JxlDecoder::set_limits sequences: real decoder (c13i, hook H8) vs Jxl.Alloc.setLimits, plus the
+    oracle on the implementation alone: total budget == last accepted limit, refusal iff it does not fit"""
+    ctx.cargo_build(["c13i"])
+    rng = ctx.rng
+    fixture = open(REPO + "/crates/jxl-oxide-tests/tests/cms/cmyk_layers.jxl", "rb").read().hex()
+    W = 2 ** 64
+    scripts = []
+    for _ in range(40 if ctx.quick else 600):
+        ops = []
+        for _ in range(rng.randint(1, 8)):
+            v = rng.choice(["none", 0, 1, 100, 407, 408, 409, 4096, 10 ** 6, 10 ** 9, W - 1,
+                            rng.randrange(0, 2000), rng.randrange(0, 1 << 40)])
+            ops.append(f"set:{v}")
+        scripts.append(ops)
+    lines = ["dec " + fixture + " " + " ".join(o) for o in scripts]
+    outs = run_lines_robust([ctx.harness_bin("c13i")], lines, per_line_timeout=60)
+    mlines, spans = [], []
+    for ops, o in zip(scripts, outs):
+        parts = (o or "crash").split(" | ")
+        ctx.case(("set_limits", tuple(ops)), nontrivial=any("refused" in p for p in parts) and any(p.startswith("ok") for p in parts))
+        rep = {"script": " ".join(ops), "answer": (o or "")[:600], "how": "echo 'dec <fixture hex> <ops>' | harness/target/debug/c13i"}
+        if len(parts) != len(ops) + 1 or not parts[0].startswith("new "):
+            ctx.violation("set-limits-crashed", (o or "crash")[:200], rep, key="c13:set-limits-crash")
+            continue
+        m0 = re.match(r"new total=(\d+) out=(\d+) cur=(\d+)", parts[0])
+        total, out = int(m0.group(1)), int(m0.group(2))
+        bad = None
+        for op, p_ in zip(ops, parts[1:]):
+            m = re.match(r"(ok|refused|err) total=(\d+) out=(\d+) cur=(\d+)", p_)
+            if not m:
+                bad = "unparsable " + p_; break
+            new = W - 1 if op == "set:none" else int(op[4:])
+            ctx.count("set_limits:" + m.group(1))
+            if m.group(1) == "ok":
+                if new < int(m.group(3)):
+                    bad = f"limit {new} below the {m.group(3)} bytes handed out was accepted"; break
+                total = new
+            elif m.group(1) == "refused":
+                if new >= int(m.group(3)):
+                    bad = f"limit {new} that fits the {m.group(3)} bytes handed out was refused"; break
+            else:
+                bad = "unexpected error"; break
+            if int(m.group(2)) != total:
+                bad = f"after {op}: tracker budget {m.group(2)} != last accepted limit {total}"; break
+        if bad:
+            ctx.violation("set-limits-budget-is-not-the-last-accepted-limit", bad, rep, key="c13:set-limits")
+            continue
+        spans.append((len(mlines), ops, parts))
+        mlines.append(f"dnew {out}")
+        mlines += ["dset " + op[4:] for op in ops]
+    if ok and mlines:
+        mo, rc, err = ctx.run_model("c13", mlines)
+        if rc != 0 or len(mo) != len(mlines):
+            ctx.failed_obligations.append(f"model driver (set_limits) died rc={rc} {err[-200:]}")
+        else:
+            for a, ops, parts in spans:
+                got = mo[a:a + len(ops) + 1]
+                if got != parts:
+                    d = first_diff(parts, got)
+                    ctx.failed_obligations.append(
+                        f"correspondence JxlDecoder::set_limits vs Jxl.Alloc.setLimits differs at {(['new'] + ops)[d]!r}: "
+                        f"impl {parts[d]!r} model {got[d]!r}")
+                    break
+    # a decode under the installed limit: it must fail when the image needs more than the limit,
+    # also after refused calls in between (the budget is the last ACCEPTED limit)
+    if ok:
+        plans = []
+        for i in range(4 if ctx.quick else 40):
+            img, fr = pl.gen_modular_image(rng)
+            plans.append(pl.plan_line(img, fr))
+        hexes = []
+        for e in run_lines_robust([MODEL_EXE, "enc"], plans, per_line_timeout=60):
+            r = pl.parse_enc_output(e) if e and e.startswith("ok") else None
+            if r:
+                hexes.append(r[0])
+        amp = run_lines_robust([ctx.harness_bin("c13i")], [f"dec {h} set:none decode" for h in hexes], per_line_timeout=60)
+        dl, meta = [], []
+        for h, o in zip(hexes, amp):
+            m = re.search(r"\| (\S+) total=\d+ out=\d+ cur=\d+ peak=(\d+)$", o or "")
+            m0 = re.match(r"new total=\d+ out=(\d+)", o or "")
+            if not m or m.group(1) != "ok" or not m0:
+                ctx.count("set_limits-decode:ample-" + ((o or "crash").split(" | ")[-1].split()[0]))
+                continue
+            peak, out0 = int(m.group(2)), int(m0.group(1))
+            for pre in ("", f"set:{2 * peak} set:0 ", f"set:{peak - 1} set:{out0 - 1} set:{3 * peak} set:1 "):
+                for lim in (peak - 1, peak, max(out0, peak // 2)):
+                    dl.append(f"dec {h} {pre}set:{lim} decode"); meta.append((peak, lim))
+        for line, (peak, lim), o in zip(dl, meta, run_lines_robust([ctx.harness_bin("c13i")], dl, per_line_timeout=60)):
+            parts = (o or "crash").split(" | ")
+            ctx.case(("set_limits-decode", line), nontrivial=True)
+            m = re.match(r"(\S+) total=(\d+) out=(\d+) cur=(\d+) peak=(\d+)", parts[-1])
+            rep = {"script": line[:20] + "..." + line[-120:], "codestream_hex": line.split()[1], "answer": (o or "")[-300:],
+                   "needs_bytes": peak, "limit": lim, "how": "echo '<script>' | harness/target/debug/c13i"}
+            if not m:
+                ctx.violation("decode-under-set-limits-crashed", (o or "crash")[:200], rep, key="c13:set-limits-decode-crash")
+                continue
+            ctx.count("set_limits-decode:" + m.group(1))
+            if int(m.group(2)) != lim:
+                ctx.violation("set-limits-budget-is-not-the-last-accepted-limit", f"budget {m.group(2)} != {lim}", rep, key="c13:set-limits")
+            elif lim < peak and m.group(1) == "ok":
+                ctx.violation("decode-succeeded-beyond-the-installed-limit", f"needs {peak}, limit {lim}", rep, key="c13:set-limits-decode")
+            elif int(m.group(5)) > lim:
+                ctx.violation("tracked-total-exceeded-limit", f"peak {m.group(5)} > limit {lim}", rep, key="c13:set-limits-peak")
+            elif lim >= peak and m.group(1) != "ok":
+                ctx.violation("decode-failed-within-the-installed-limit", f"needs {peak}, limit {lim}: {m.group(1)}", rep, key="c13:set-limits-decode-fail")
 
 
 def end_to_end(ctx, ok):
@@ -183,13 +330,26 @@ def end_to_end(ctx, ok):
         ks = sorted({0, 1, allocs // 2, max(0, allocs - 1)} | {rng.randrange(max(1, allocs)) for _ in range(6 if ctx.quick else 60)})
         for k in ks:
             lines.append(f"sweep {data.hex()} {ample} {k}"); meta.append((label, data, ample, k, peak))
+        # incremental feeding, the caller keeps feeding after an error
+        for _ in range(6 if ctx.quick else 40):
+            chunk = rng.choice([1, 7, 64, 333, 1000, 4096, 9613, max(1, len(data) // 3)])
+            if len(data) > 20000 and chunk < 64:
+                chunk = 4096
+            if rng.random() < 0.5:
+                l = rng.choice([peak - 1, peak // 2, peak // 3, rng.randint(0, max(1, peak))])
+                lines.append(f"feeds {data.hex()} {max(0, l)} {chunk}"); meta.append((label, data, max(0, l), None, peak))
+            else:
+                k = rng.randrange(max(1, allocs))
+                lines.append(f"feeds {data.hex()} {ample} {chunk} {k}"); meta.append((label, data, ample, k, peak))
     outs = run_lines_robust([ctx.harness_bin("c13e")], lines, per_line_timeout=60, batch=50)
-    for (label, data, limit, k, peak), o in zip(meta, outs):
+    for (label, data, limit, k, peak), ln, o in zip(meta, lines, outs):
         o = o or "crash"
         ctx.case(("e2e", data, limit, k), nontrivial=True)
         ctx.count("e2e:" + label.split(":")[0])
-        replay = {"bytes_hex": data.hex(), "limit": limit, "fail_from": k,
-                  "how": "echo 'sweep <hex> <limit> [fail_from]' | harness/target/debug/c13e"}
+        opw = ln.split()
+        replay = {"bytes_hex": data.hex(), "limit": limit, "fail_from": k, "op": opw[0], "op_args": opw[2:],
+                  "how": "echo '<op> <hex> <op_args>' | harness/target/debug/c13e  (sweep <hex> <limit> [fail_from] | "
+                         "feeds <hex> <limit> <chunk> [fail_from])"}
         m = re.match(r"(\S+) peak=(\d+) left=(\d+) outstanding=(\d+) allocs=(\d+)", o)
         if not m:
             ctx.violation("exhaustion-not-an-error", o[:300], replay, key="c13e:" + o.split()[0][:60])
